@@ -396,7 +396,11 @@ func VerifC11_RedeemStep() {
 
 	w.ak.accs[string(c11Holder)] = &haqqtypes.EthAccount{BaseAccount: authtypes.NewBaseAccountWithAddress(c11Holder), CodeHash: common.Hash{}.Hex()}
 	var to sdk.AccAddress
-	switch zz.Choose("recipient", 3) {
+	rcp := zz.ParamInt("recipient", -1)
+	if rcp < 0 {
+		rcp = zz.Choose("recipient", 3)
+	}
+	switch rcp {
 	case 0: // oneself, a plain EVM account
 		to = c11Holder
 	case 1: // another plain EVM account
